@@ -68,8 +68,12 @@ def lgbn_patterns(rng, thorough):
     add(4)
     if thorough:
         add(3)
+        add(3, kind="degenerate")
+        add(3, kind="dyadic")
+        add(4)
         add(4)
         add(4, kind="degenerate")
+        add(4, kind="degenerate", ndata=5)
         add(4, kind="unit", ndata=7)
     return pats
 
@@ -117,7 +121,7 @@ def gd_pool(rng, pid, nvars, nmembers):
 def gd_pools(rng, thorough):
     pools = [gd_pool(rng, 1, 3, 5), gd_pool(rng, 2, 2, 4)]
     if thorough:
-        pools += [gd_pool(rng, 3, 3, 6), gd_pool(rng, 4, 3, 6), gd_pool(rng, 5, 4, 5), gd_pool(rng, 6, 4, 6)]
+        pools += [gd_pool(rng, 3 + i, 3, 6) for i in range(5)] + [gd_pool(rng, 8 + i, 4, 5 + i % 2) for i in range(5)]
     return pools
 
 
@@ -132,7 +136,7 @@ CFG_L = ("CONSTANT MaxNum = %d\nCONSTANT MaxDen = %d\nINIT Init\nNEXT Next\n"
 CFG_T = "CONSTANT MaxNum = %d\nCONSTANT MaxDen = %d\nINIT Init\nNEXT Next\nINVARIANT Report\n"
 
 L_ACTIONS = ["Build", "DoJoint", "DoPredict", "DoFit"]
-D_ACTIONS = ["Build", "DoMarg", "DoReduce", "DoCanon", "DoCToJoint", "DoProduct", "DoCMarg", "DoCReduce", "DoCProduct"]
+D_ACTIONS = ["Build", "DoDensity", "DoMarg", "DoReduce", "DoCanon", "DoCToJoint", "DoProduct", "DoCMarg", "DoCReduce", "DoCProduct"]
 T_ACTIONS = ["Build", "StepJoint", "StepPredict"]
 
 
@@ -140,7 +144,7 @@ def _case_key(c):
     o = c["out"]
     if "pat" in c:
         return json.dumps([c["pat"], sorted(map(tuple, c["edges"])), o["kind"], sorted(o.get("missing", []))])
-    return json.dumps([c["pool"], o["op"], sorted(o["a"]["S"]), sorted(o.get("b", {}).get("S", [])), o.get("same"),
+    return json.dumps([c["pool"], o["op"], sorted(o["a"]["S"]), o["a"].get("mu"), o["a"].get("h"), sorted(o.get("b", {}).get("S", [])), o.get("same"),
                        sorted(o.get("vars", [])), o.get("at"), o.get("inplace")], sort_keys=True)
 
 
@@ -187,7 +191,7 @@ def run(ctx):
     cases = gen_lgbn(ctx, pats, "L", 200, 16, timeout=7200)
     byid = {p["id"]: p for p in pats}
     if ctx.thorough:
-        pats5 = lgbn_patterns5(rng, 120)
+        pats5 = lgbn_patterns5(rng, 500)
         cases5 = gen_lgbn(ctx, pats5, "L5", 60, 1, timeout=7200)
         byid.update({p["id"]: p for p in pats5})
         cases += cases5
@@ -219,7 +223,7 @@ def run(ctx):
 
     hseeds = list(range(4)) if ctx.thorough else [0, 1]
     nchunk = 3
-    ntr = (240 if ctx.thorough else 60) // (len(hseeds) * nchunk)
+    ntr = (600 if ctx.thorough else 60) // (len(hseeds) * nchunk)
     payloads = []
     for hs in hseeds:
         lch, dch = chunks(list(enumerate(cases)), nchunk), chunks(list(enumerate(dcases)), nchunk)
@@ -276,8 +280,7 @@ def validate(ctx, traces, tag="Trace"):
                 part = raw["mean"] if v["clause"].endswith("mean") else raw["cov"]
                 try:
                     if v["clause"] == "predict.mean":
-                        # the spec reports the first bad row only by value; look the cell up in every row
-                        xs = [row[v["at"][0]] for row in part]
+                        xs = [part[v["at"][1] - 1][v["at"][0]]]         # at = [variable, row]
                     elif len(v["at"]) == 1:
                         xs = [part[v["at"][0]]]
                     else:
@@ -289,6 +292,8 @@ def validate(ctx, traces, tag="Trace"):
                     raise Machinery(f"rationalisation artefact in trace {p['tid']} step {k}: floats {xs} vs {v['want']}")
             api = "to_joint_gaussian" if st["ev"] == "joint" else "predict"
             feats = {} if st["ev"] == "joint" else {"missing": "1" if len(t["nodes"]) - len(st["observed"]) == 1 else ">=2"}
+            if v["clause"] == "predict.cov":
+                feats["variances_ok"] = v["at"][0] != v["at"][1]       # the spec reports a wrong diagonal cell first
             ctx.violation({"api": "LinearGaussianBayesianNetwork." + api, "clause": v["clause"].split(".", 1)[1], "features": feats,
                            "case": {"kind": "trace", "trace": {k2: t[k2] for k2 in t if k2 != "raw"}, "step": k},
                            "observed": raw, "expected": {"at": v["at"], "value": v["want"]}})
@@ -524,6 +529,8 @@ def replay_lgbn_case(pat, case, seed, fails, hs):
                 fail(L + "predict", "mean", feats, means[r], exp)
                 return calls
         c = _cmp_mat(cov, out["cov"])
+        if c == "value":
+            feats = dict(feats, variances_ok=all(_close(cov[v][v], out["cov"][v][v]) for v in missing))
         if c:
             fail(L + "predict", "cov" if c == "value" else "cov.shape", feats, cov, out["cov"])
     elif out["kind"] == "fit":
@@ -618,6 +625,10 @@ def _chk_gauss(obj, exp, inv):
         return "mean"
     if not all(_close(cov[i, j], exp["cov"][v][u]) for i, v in enumerate(toks) for j, u in enumerate(toks)):
         return "cov"
+    if "prec" in exp:          # the (cached) information matrix must describe the same density
+        K = np.asarray(obj.precision_matrix, dtype=float)
+        if K.shape != (k, k) or not all(_close(K[i, j], exp["prec"][v][u]) for i, v in enumerate(toks) for j, u in enumerate(toks)):
+            return "precision_matrix"
     return None
 
 
@@ -666,10 +677,25 @@ def replay_gd_case(case, seed, fails, hs):
     def fail(clause, obs=None, exp=None):
         fails.append({"api": cls + meth, "clause": clause, "features": feats,
                       "case": {"kind": "gd", "case": case, "seed": seed, "hashseed": hs}, "observed": obs, "expected": exp})
+    if op == "pdf":
+        at = _obj(o["at"])
+        want = sym_eval(o["res"])
+        for nm, obj in (("GaussianDistribution.assignment", _mk_gauss(o["a"], vn, rng)), ("CanonicalDistribution.assignment", _mk_canon(o["c"], vn, rng))):
+            try:
+                val = float(obj.assignment(*[float(_f(at[inv[x]])) for x in obj.variables]))
+                ok = val > 0 and abs(math.log(val) - want) <= TOL * max(1.0, abs(want))
+            except Exception as ex:  # noqa
+                val, ok = repr(ex)[:200], False
+            if not ok:
+                fails.append({"api": nm, "clause": "value", "features": {}, "case": {"kind": "gd", "case": case, "seed": seed, "hashseed": hs},
+                              "observed": val, "expected": {"log_density": o["res"], "evaluated": want}})
+        return 2
     a = mk(o["a"], vn, rng)
     b = None
     if "b" in o:
         b = a if o["same"] else mk(o["b"], vn, rng)
+    if not canon and rng.random() < 0.6:
+        a.precision_matrix                      # fill the cache: a stale cache after the call would misdescribe the result
     try:
         if meth == "marginalize":
             r = a.marginalize([vn[v] for v in shuffled(o["vars"], rng)], inplace=ip)
